@@ -3,8 +3,10 @@
     [Print Assumptions].  Model: coq/Trie/Model.v (mirrors pkg/trie/trie.go after the F1
     repair); hash layer parametric in the hash function [H]. *)
 From Coq Require Import List Bool Arith NArith.
+From Verif Require Import Trie.Proof Trie.BatchModel Trie.BatchBasics Trie.BatchSerial Trie.BatchRep
+  Trie.BatchRefine1 Trie.BatchRefine3 Trie.BatchRefine4 Trie.BatchRefine5.
 From Verif Require Import Trie.Model Trie.Basics Trie.Masc Trie.GetUpdate Trie.Canon Trie.History Trie.HashBind
-  Trie.Store Trie.StoreProofs Trie.F1.
+  Trie.Store Trie.StoreProofs Trie.F1 Trie.ProofComplete Trie.RevertModel Trie.RevertProofs.
 Import ListNotations.
 
 (** Map semantics of one Update: Get of any key returns the batch's value for it (None for
@@ -149,3 +151,97 @@ Theorem C10_f1_unrepaired_loop_refuted :
   add_shortcut s 7 batch = [(a, Some 1); (b, Some 3)].
 Proof. exact f1_witness. Qed.
 Print Assumptions C10_f1_unrepaired_loop_refuted.
+
+(** ---- the 4-level batch storage layer (BatchModel.v: the 31-slot arrays, loadChildren,
+    leafHash / interiorHash / moveUpShortcut writing into the batch, storeNode /
+    deleteOldNode on updatedNodes, parseBatch / serializeBatch), literally ---- *)
+
+(** parseBatch (serializeBatch b) = b on well-formed batches. *)
+Theorem C10_batch_parse_serialize :
+  forall b, batch_wf b -> parse_batch (serialize_batch b) = b.
+Proof. exact parse_serialize. Qed.
+Print Assumptions C10_batch_parse_serialize.
+
+(** REFINEMENT.  For every height, path, content-addressed store ([inv_st]) and caller batch
+    in which node i represents the tree t with nothing stale below it ([lrep]), the
+    batch-level update (if it returns without a load error) returns the encoding of the
+    tree-level [update h t kvs] and the same [deleted] flag, leaves the caller's batch
+    representing the new subtree with nothing stale below node i and NOTHING touched outside
+    the slots below node i, and keeps the store content-addressed — unless H is broken. *)
+Theorem C10_batch_update_refines :
+  forall (H : bytes -> bytes), (forall x, length (H x) = 32) ->
+  forall (atomic : bool) (h : nat), rec_ok H h (bupdate H atomic h).
+Proof. exact bupdate_ok. Qed.
+Print Assumptions C10_batch_update_refines.
+
+(** Trie.Update on the batch store: the new root is the root of the updated tree. *)
+Theorem C10_trie_update_b_refines :
+  forall (H : bytes -> bytes), (forall x, length (H x) = 32) ->
+  forall (atomic : bool) st rt kvs t st' rt',
+  inv_st H st -> wf 256 t -> vals32 t -> canon t -> good 256 kvs ->
+  rt = root H 256 t ->
+  trie_update_b H atomic st rt kvs = Some (st', rt') ->
+  (rt' = root H 256 (trie_update 256 t kvs) /\ inv_st H st') \/ hash_break H.
+Proof. exact trie_update_b_refines. Qed.
+Print Assumptions C10_trie_update_b_refines.
+
+(** abs_batch_store is sound: whatever tree is read back from a content-addressed store at
+    the root of t is t (if a needed batch is missing the read fails: F21 class). *)
+Theorem C10_abs_batch_store_sound :
+  forall (H : bytes -> bytes), (forall x, length (H x) = 32) ->
+  forall st t t'',
+  inv_st H st -> wf 256 t -> vals32 t ->
+  abs_batch_store st (root H 256 t) = Some t'' -> t'' = t \/ hash_break H.
+Proof. exact abs_batch_store_sound. Qed.
+Print Assumptions C10_abs_batch_store_sound.
+
+(** Commit (serialise every updated batch into the key-value store) keeps the store
+    content-addressed: uses the parse/serialize round trip on canonical batches. *)
+Theorem C10_commit_keeps_store_canonical :
+  forall (H : bytes -> bytes), (forall x, length (H x) = 32) ->
+  forall st, inv_st H st -> inv_st H (commit_store st).
+Proof. exact commit_keeps_inv. Qed.
+Print Assumptions C10_commit_keeps_store_canonical.
+
+(** Parallel subtree updates: the slots below the two children of a node are disjoint and
+    neither child slot lies below the other (with the frame clause of the refinement theorem:
+    a child call touches only the slots strictly below its own slot), so the two goroutines
+    of updateParallel never write, nor read, a common batch slot. *)
+Theorem C10_parallel_children_disjoint :
+  forall i j, i <= 14 -> j <= 30 ->
+  (underb (2 * i + 1) j && underb (2 * i + 2) j = false) /\
+  underb (2 * i + 1) (2 * i + 2) = false /\ underb (2 * i + 2) (2 * i + 1) = false /\
+  underb (2 * i + 1) (2 * i + 1) = false /\ underb (2 * i + 2) (2 * i + 2) = false /\
+  underb i i = false /\ (underb i j = true -> i < j).
+Proof. exact under_facts. Qed.
+Print Assumptions C10_parallel_children_disjoint.
+
+(** ---- Revert (trie_revert.go; not called by the node) ---- *)
+
+(** Every key Revert deletes is the key of a batch root of a LATER past trie ... *)
+Theorem C10_revert_deletes_only_later_batch_roots :
+  forall (H : bytes -> bytes) h rp o d x, In x (mds H h rp o d) -> In x (all_roots H h rp d).
+Proof. exact mds_subset_all_roots. Qed.
+Print Assumptions C10_revert_deletes_only_later_batch_roots.
+
+(** ... and a later trie identical to the target contributes nothing. *)
+Theorem C10_revert_same_noop :
+  forall (H : bytes -> bytes) h rp t, mds H h rp t t = [].
+Proof. exact mds_same. Qed.
+Print Assumptions C10_revert_same_noop.
+
+(** revert_keeps_other_roots_readable is FALSE (F26): history A -> B -> A, Revert(B) deletes the
+    batch that the older past root A consists of. *)
+Theorem C10_revert_keeps_other_roots_readable_refuted :
+  rv_A <> rv_B /\ In (root ex_H 256 rv_A) (revert_dels ex_H rv_B [rv_A]).
+Proof. exact revert_older_root_lost. Qed.
+Print Assumptions C10_revert_keeps_other_roots_readable_refuted.
+
+(** revert_restores_past_root is FALSE in the byte(256) == byte(0) aliasing case (F27): the
+    deleted key of the later root shortcut is the key of the target's own height-0 leaf. *)
+Theorem C10_revert_restores_past_root_refuted :
+  get rv_target rv_a = Some (ex_v 1) /\ get rv_target rv_b = Some (ex_v 2) /\ wf 256 rv_target /\
+  In (th ex_H 0 (repeat false 256) (Lf [] (ex_v 1))) (revert_dels ex_H rv_target [rv_later]) /\
+  In (th ex_H 0 (repeat false 256) (Lf [] (ex_v 1))) (all_roots ex_H 256 [] rv_target).
+Proof. exact revert_target_lost_alias. Qed.
+Print Assumptions C10_revert_restores_past_root_refuted.
